@@ -27,7 +27,7 @@ BUDGET = {
     "quick": {"cases": 6400, "seconds": 90, "shards": 8},
     "thorough": {"cases": 120000, "seconds": 900, "shards": 16},
 }
-REQUIRED_OBS = ["propagate_twin_compared", "extreme_query_rows", "rows_compared", "kind:supervised", "kind:semi", "kind:knn", "kind:unsup", "train_copy_at_own_index", "batch_longer_than_train",
+REQUIRED_OBS = ["identifiers_beside_feature_metric", "propagate_twin_compared", "extreme_query_rows", "rows_compared", "kind:supervised", "kind:semi", "kind:knn", "kind:unsup", "train_copy_at_own_index", "batch_longer_than_train",
                 "pre_computed_cases", "after_earlier_predicts"]
 MIN_NONTRIVIAL = 100
 KINDS = ["supervised", "semi", "knn", "unsup"]
@@ -56,6 +56,8 @@ def generate(rng, tier, idx):
                 mid, dif = (X[a] + X[b]) / 2.0, (X[a] - X[b])
                 pool[0], pool[1] = mid + 1e-9 * dif, mid - 1e-9 * dif
                 break
+    if rng.random() < 0.15:
+        pool[int(rng.integers(0, len(pool))), int(rng.integers(0, d))] = np.nan        # a row with a missing value is still one row
     if rng.random() < 0.35:
         # rows so far away that every distance overflows to inf: the result must still be a function of the row alone
         pool[int(rng.integers(0, len(pool)))] = 1e200
@@ -74,7 +76,7 @@ def generate(rng, tier, idx):
         D = gen.make_matrix(rng, N, gen.pick(rng, ["M1", "M2", "M3"]))
         pre = {"D": D.tolist(), "I": [int(i) for i in I], "IV": None if IV is None else [int(i) for i in IV], "N": int(N)}
     return {"kind": kind, "metric": name, "X": X.tolist(), "Y": Y.tolist(), "V": V.tolist(), "YV": [int(v) for v in YV],
-            "pool": pool.tolist(), "max_k": max_k, "min_k": int(rng.integers(1, max_k + 1)), "pre": pre, "sched_seed": int(rng.integers(0, 1 << 30))}
+            "pool": pool.tolist(), "ids_onthefly": bool(rng.random() < 0.2), "max_k": max_k, "min_k": int(rng.integers(1, max_k + 1)), "pre": pre, "sched_seed": int(rng.integers(0, 1 << 30))}
 
 
 def _fit(case, m):
@@ -128,6 +130,8 @@ def check(case):
         for j in range(len(pool)):
             rows["q%d" % j] = (pool[j].copy(), None)
         train_ids = {"t%d" % i: i for i in range(n)}
+    if not pre and case.get("ids_onthefly"):
+        res.see("identifiers_beside_feature_metric")
     if not pre and any(np.any(np.abs(v[0]) >= 1e150) for v in rows.values()):
         res.see("extreme_query_rows")
     ids = list(rows)
@@ -152,6 +156,8 @@ def check(case):
             else:
                 reuse[("I", len(batch))] = Ib
             c = safe_call(m.predict, Xb, Ib)
+        elif case.get("ids_onthefly"):
+            c = safe_call(m.predict, Xb, np.full(len(batch), 3, dtype=int))       # one identifier for every row, beside a feature metric
         else:
             c = safe_call(m.predict, Xb)
         calls[0] += 1
